@@ -14,6 +14,7 @@ import (
 	"os"
 	"path/filepath"
 	"strings"
+	"sync"
 
 	"github.com/RoaringBitmap/roaring/v2"
 	segment "github.com/blevesearch/scorch_segment_api/v2"
@@ -75,6 +76,9 @@ func refHistories(r *RunCtx) {
 
 	if c.Prob(1, 4, "ref.damaged") {
 		w.openDamagedFiles(mem)
+	}
+	if r.tsan && c.Prob(1, 8, "ref.burst") {
+		w.parallelReleaseBurst(mem, 2+c.Choose(3, "ref.burst.holders"))
 	}
 	opened := w.PersistOpen(mem)
 	ps, ok := opened.Seg.(*zap.Segment)
@@ -323,6 +327,71 @@ func refHistories(r *RunCtx) {
 		r.fail("C20.counter", "Segment.refs", "after the last release the segment holds %d references", got)
 	}
 	r.Sample["ops"] = r.Events
+}
+
+// parallelReleaseBurst is the one place where the schedule is NOT decided by the
+// simulator: the last references of a freshly opened segment are dropped by
+// goroutines that really run in parallel (race-detector build, GOMAXPROCS 8),
+// a few hundred times. The cooperative scheduler can only switch tasks at yield
+// points; a lost update between two atomic operations inside DecRef has none.
+// The oracle is the same as everywhere in C20 and holds for every schedule:
+// no release call fails, and afterwards the file is unmapped, its descriptor
+// closed and the counter at 0. A failure here replays only with the probability
+// of the interleaving (the supervisor retries), which is why this is a
+// supplement to the seeded interleavings, not a replacement.
+func (w *World) parallelReleaseBurst(mem *SegH, holders int) {
+	r := w.r
+	us, ok := mem.Seg.(segment.UnpersistedSegment)
+	if !ok {
+		return
+	}
+	path := r.path("burst")
+	if err := us.Persist(path); err != nil {
+		r.fail("persist-error", "Persist", "Persist failed without any fault injected: %v", err)
+	}
+	saved := zap.VerifYield
+	zap.VerifYield = nil
+	defer func() { zap.VerifYield = saved }()
+	const rounds = 300
+	for round := 0; round < rounds; round++ {
+		seg, err := plugin.Open(path)
+		if err != nil {
+			r.fail("open-error", "Open", "Open of a persisted segment failed: %v", err)
+		}
+		ps := seg.(*zap.Segment)
+		for h := 1; h < holders; h++ {
+			ps.AddRef()
+		}
+		start := make(chan struct{})
+		errs := make([]error, holders)
+		var wg sync.WaitGroup
+		for h := 0; h < holders; h++ {
+			wg.Add(1)
+			go func(h int) {
+				defer wg.Done()
+				<-start
+				if h == 0 {
+					errs[h] = ps.Close()
+				} else {
+					errs[h] = ps.DecRef()
+				}
+			}(h)
+		}
+		close(start)
+		wg.Wait()
+		for h, e := range errs {
+			if e != nil {
+				r.fail("C20.release-error", "parallel release", "%d holders dropping their last references in parallel (round %d): holder %d got %v", holders, round, h, e)
+			}
+		}
+		if m, fds := mappedAndOpen(path); m || fds != 0 {
+			r.fail("C20.leak", "parallel release", "%d holders dropped their last references in parallel (round %d): afterwards mapped=%v open descriptors=%d", holders, round, m, fds)
+		}
+		if got := zap.VerifSegmentRefs(ps); got != 0 {
+			r.fail("C20.counter", "parallel release", "%d holders dropped their last references in parallel (round %d): the segment still counts %d references", holders, round, got)
+		}
+	}
+	r.countN("probe.ref.parallel-release-rounds", rounds)
 }
 
 // legacyFileWithBadDocValues is a tiny file in the pre-sections (version 15)
